@@ -20,7 +20,14 @@ class Block:
 
 
 class Program:
-    def __init__(self, path):
+    def __init__(self, path, scale=None):
+        """scale = (function-name regex, old constant, new constant): every integer constant
+        operand equal to `old` of a comparison in the matching functions is replaced by `new`
+        (used to bring the 10,000 nesting limit within reach of bounded runs)"""
+        import re
+        self.scale = (re.compile(scale[0]), scale[1], scale[2]) if scale else None
+        self.scaled_sites = []
+        self._curfn = ''
         with open(path) as f:
             d = json.load(f)
         self.types = d['types']
@@ -90,6 +97,7 @@ class Program:
     def _func(self, fj):
         f = Func()
         f.name = fj['name']
+        self._curfn = f.name
         f.short = f.name.split('/')[-1]
         f.extern = bool(fj.get('extern'))
         f.pkg = fj.get('pkg')
@@ -136,6 +144,12 @@ class Program:
         for k in ('x', 'y', 'cond', 'index', 'low', 'high', 'max', 'addr', 'val', 'len', 'cap', 'map', 'key', 'value', 'iter', 'reserve', 'fn'):
             if k in ins and (isinstance(ins[k], dict) or ins[k] is None):
                 ins[k] = self.operand(ins[k])
+        if self.scale and ins.get('op') == 'BinOp' and ins.get('tok') in ('==', '!=', '<', '<=', '>', '>=') and self.scale[0].search(self._curfn):
+            for k in ('x', 'y'):
+                o = ins.get(k)
+                if o is not None and o[0] == K_CONST and o[1] == self.scale[1]:
+                    ins[k] = (K_CONST, self.scale[2])
+                    self.scaled_sites.append('%s %s' % (self._curfn.split('/')[-1], ins.get('pos', '').split('/')[-1]))
         if 'edges' in ins:
             ins['edges'] = [self.operand(e) for e in ins['edges']]
         if 'results' in ins:
